@@ -228,6 +228,7 @@ func init() {
 		ruleRoundGuard(prog, rep)
 		ruleFilterRoot(prog, rep, func(fn string) bool { return !filterRootMutators[fn] })
 		ruleTwinClauses(prog, rep, 20, func(fd *ast.FuncDecl) bool { return twinScope(fd) == "C11" })
+		ruleNormalizeTwins(prog, rep) // gen data and simple data reach the operators in the same kinds
 	}
 	rules["C13"] = func(prog *Program, rep *Report) {
 		rep.Explain("C13 decides sibling clauses of the mutators: the cells of set and modify keep the index-selection fingerprints they share across []any, gen.Array and Indexed (and map, gen.Object, Keyed): bound normalisation, guards such as 0 <= i && i < LEN, loop bounds, and the labelled break that stops the *One forms after the first change. The known divergence of modify/remove from Get on the slice end bound (inclusive) is pinned by jp/remove_test.go and recorded in KNOWN_FINDINGS.txt. Not covered: the frame condition on values, Set's created structure.")
